@@ -215,10 +215,15 @@ def _pred_simplified_final_barrier(case, facts):
 # ------------------------------------------------------------------------------------------------ generators
 def _durations(st):
     dy = st.sampled_from(DYADIC)
-    return st.one_of(st.tuples(dy, dy, dy, dy).map(list), st.tuples(dy, dy, dy, dy).map(list),
-                     st.tuples(dy, dy, dy, dy).map(list), st.just(list(DEFAULT)),
-                     # readout strictly shorter than microwave
-                     st.tuples(st.sampled_from(DYADIC[:4]), st.sampled_from(DYADIC[4:]), dy, dy).map(list))
+    free = st.tuples(dy, dy, dy, dy).map(list)
+    # readout strictly shorter than microwave (decoupling wait clipped at 0)
+    short_readout = st.tuples(st.sampled_from(DYADIC[:4]), st.sampled_from(DYADIC[4:]), dy, dy).map(list)
+    return st.one_of(free, free, free, free, free, short_readout, short_readout, st.just(list(DEFAULT)))
+
+
+def _cycles(st, max_cycles):
+    # order chosen so that Hypothesis' preference for early elements lands on 2..5 cycles, not on 0
+    return st.sampled_from([2, 3, 4, 5, 1, 6] + [c for c in range(7, max_cycles + 1)] + [0])
 
 
 def _repcode_strategy(ctor, max_d, max_cycles):
@@ -247,9 +252,10 @@ def _repcode_strategy(ctor, max_d, max_cycles):
         anc = None if (omit or draw(st.booleans())) else draw(st.lists(st.integers(0, 1), min_size=d - 1, max_size=d - 1))
         case.update(d=d, data=data, anc=anc, desc=desc, refocus=refocus)
         if ctor == "multi":
-            case["rounds"] = draw(st.lists(st.integers(0, max_cycles), min_size=1, max_size=3, unique=True))
+            n_rounds = draw(st.sampled_from([1, 2, 2, 3, 3]))
+            case["rounds"] = list(draw(st.permutations(list(range(0, max_cycles + 1)))))[:n_rounds]
         else:
-            case["cycles"] = draw(st.one_of(st.integers(0, 5), st.integers(0, max_cycles)))
+            case["cycles"] = draw(_cycles(st, max_cycles))
         case["durations"] = draw(_durations(st))
         return case
 
@@ -292,9 +298,9 @@ def items_grid(tier):
 def parts():
     return [
         Part("duration_grid", body, items=items_grid, exhaustive=True),
-        Part("repcode_full", body, strategy=strat_full, quick=110, thorough=500),
+        Part("repcode_full", body, strategy=strat_full, quick=90, thorough=500),
         Part("repcode_full_large", body, strategy=strat_full_large, quick=0, thorough=120),
-        Part("repcode_simplified", body, strategy=strat_simplified, quick=120, thorough=600),
-        Part("multi_round", body, strategy=strat_multi, quick=25, thorough=150),
+        Part("repcode_simplified", body, strategy=strat_simplified, quick=100, thorough=600),
+        Part("multi_round", body, strategy=strat_multi, quick=20, thorough=150),
         Part("calibration", body, strategy=strat_calibration, quick=150, thorough=1000),
     ]
